@@ -60,6 +60,10 @@ def make_case(rng, cli):
                 r["idx"] = i + off
         for r in rng.sample(reacs, max(1, len(reacs) // 3)):
             r["idx"] = -1
+    # temperature windows: none, containing the evaluation temperature (50 K), or excluding it - a modifier replaces the
+    # coefficient as a whole, whatever window the original carried
+    for r in reacs:
+        r["tmin"], r["tmax"] = rng.choice([(-1.0, -1.0), (-1.0, -1.0), (10.0, 300.0), (100.0, 300.0), (5.0, 20.0), (-1.0, 30.0), (80.0, -1.0)])
     eff = [(i if variant == "unindexed" else r["idx"]) for i, r in enumerate(reacs)]   # index a modifier key is matched against
     present = sorted({e for e in eff if e != -1})
     keys = rng.sample(present, min(len(present), rng.randint(1, 3))) if present else []
@@ -97,7 +101,7 @@ def gen_cases(tier):
 def write_file(case, work):
     lines = []
     for r, a in zip(case["net"]["reactions"], case["alphas"]):
-        rr = dict(r, alpha=a, beta=0.0, gamma=0.0, tmin=-1.0, tmax=-1.0, type=100)
+        rr = dict(r, alpha=a, beta=0.0, gamma=0.0, tmin=r.get("tmin", -1.0), tmax=r.get("tmax", -1.0), type=100)
         lines.append(encode.naunet_line(rr))
     p = work / "net.naunet"
     p.write_text("\n".join(lines) + "\n")
@@ -221,6 +225,9 @@ def run_case(case, ctx):
             if case["eff_index"][ri] != -1 and key in case["rate_modifier"]:
                 want = case["rate_modifier"][key][1]
                 matched[key] += 1
+                tmn, tmx = reacs[ri].get("tmin", -1.0), reacs[ri].get("tmax", -1.0)
+                if (tmn > 0 and case["data"]["Tgas"] < tmn) or (tmx > 0 and case["data"]["Tgas"] >= tmx):
+                    obs["targeted_outside_original_window"] += 1
                 if not close(k1[ri], want, None, rel=1e-13):
                     viol.append(violation("targeted_rate_not_replaced", f"reaction {ri} (index {key}, variant {case['variant']}): k={k1[ri]!r}, modifier "
                                           f"`{case['rate_modifier'][key][0]}` = {want!r}", reaction=ri))
